@@ -25,6 +25,12 @@ ghost var gLines int
 # password of the URL
 ghost var gDerived context.Context
 ghost var gTimeoutSet bool
+ghost var gTnUser string
+ghost var gTnPass string
+ghost var gTimeoutStr string
+ghost var gParsed bool
+ghost var gDur int
+ghost var gDurErr error
 func telnet.(Dialer).DialURLContext(d, ctx, url) (conn, err)
   props C15
   requires url: url != nil && ctx != nil
@@ -33,6 +39,23 @@ func telnet.(Dialer).DialURLContext(d, ctx, url) (conn, err)
   call context.WithTimeout set gTimeoutSet := true
   call telnet.DialContext requires callers-or-derived-context: (gTimeoutSet ==> $0 == gDerived) && (!gTimeoutSet ==> $0 == ctx)
   call telnet.DialContext requires address: same($1, url.Host)
+  # only telnet URLs are dialled; the login uses the URL's user and password (none without
+  # user information); the timeout is the dial_timeout parameter if present (an unparsable
+  # value is an error), the dialer's otherwise, and a positive timeout is always applied
+  ensures other-schemes-refused: url.Scheme != "telnet" ==> conn == nil && err == transport.ErrUnsupportedScheme
+  call telnet.DialContext requires telnet-scheme: url.Scheme == "telnet"
+  call url.(*Userinfo).Username set gTnUser := $r0
+  call url.(*Userinfo).Password set gTnPass := $r0
+  call telnet.DialContext requires credentials-of-the-url: (url.User != nil ==> same($2, gTnUser) && same($3, gTnPass)) && (url.User == nil ==> len($2) == 0 && len($3) == 0)
+  call url.(Values).Get requires timeout-parameter: $1 == "dial_timeout"
+  call url.(Values).Get set gTimeoutStr := $r0
+  call time.ParseDuration requires parses-the-parameter: same($0, gTimeoutStr) && len(gTimeoutStr) > 0
+  call time.ParseDuration set gParsed := true
+  call time.ParseDuration set gDur := $r0
+  call time.ParseDuration set gDurErr := $r1
+  ensures unparsable-timeout-is-an-error: gDurErr != nil ==> conn == nil && err != nil
+  call context.WithTimeout requires the-configured-timeout: $1 > 0 && $1 == ite(gParsed, gDur, d.Timeout)
+  call telnet.DialContext requires positive-timeout-applied: (len(gTimeoutStr) > 0 ==> gParsed && gDurErr == nil) && (ite(gParsed, gDur, d.Timeout) > 0 ==> gTimeoutSet)
 
 func telnet.DialContext(ctx, addr, mycall, password) (c, err)
   props C15
